@@ -10,6 +10,7 @@ Nothing is compared here; the arrays go back to the harness, which writes them i
 from __future__ import annotations
 
 import hashlib
+import json
 import math
 
 import numpy as np
@@ -18,6 +19,8 @@ FUNCS = {
     "illumination": "pyxel.models.photon_collection.illumination",
     "load_image": "pyxel.models.photon_collection.load_image",
     "stripe_pattern": "pyxel.models.photon_collection.stripe_pattern",
+    "usaf_illumination": "pyxel.models.photon_collection.usaf_illumination",
+    "scene_collection": "pyxel.models.photon_collection.simple_collection",
     "simple_conversion": "pyxel.models.charge_generation.simple_conversion",
     "qe_map": "pyxel.models.charge_generation.conversion_with_qe_map",
     "load_charge": "pyxel.models.charge_generation.load_charge",
@@ -27,6 +30,7 @@ FUNCS = {
 }
 GROUP = {
     "illumination": "photon_collection", "load_image": "photon_collection", "stripe_pattern": "photon_collection",
+    "usaf_illumination": "photon_collection",
     "simple_conversion": "charge_generation", "qe_map": "charge_generation", "load_charge": "charge_generation",
     "dark_current": "charge_generation", "dark_current_rule07": "charge_generation", "simple_collection": "charge_collection",
 }
@@ -72,6 +76,47 @@ def data_file(m, shape, tag):
         from astropy.io import fits
         fits.writeto(name, arr, overwrite=True)
     return name
+
+
+def png_file(m, tag):
+    """The image usaf_illumination would download, as a local 8-bit PNG; pooch.retrieve is pointed at it."""
+    from PIL import Image
+
+    shape = tuple(m["data_shape"])
+    arr = np.array([int(fx(v)) for v in m["data"]], dtype=np.uint8).reshape(shape)
+    name = f"c17_{tag}_{hashlib.sha1(arr.tobytes() + str(shape).encode()).hexdigest()[:16]}.png"
+    Image.fromarray(arr, mode="L").save(name)
+    import pooch
+
+    pooch.retrieve = lambda *a, _name=name, **k: _name     # no network in the sandbox; the model code is unchanged
+    return name
+
+
+SCENE = {
+    "coords": {"ref": {"dims": ("ref",), "attrs": {}, "data": [0, 1, 2]},
+               "wavelength": {"dims": ("wavelength",), "attrs": {"units": "nm"}, "data": [336.0, 338.0, 340.0, 342.0]}},
+    "attrs": {"right_ascension": "57.1829668 deg", "declination": "23.84371349 deg", "fov_radius": "0.5 deg"},
+    "dims": {"ref": 3, "wavelength": 4},
+    "data_vars": {
+        "x": {"dims": ("ref",), "attrs": {"units": "arcsec"},
+              "data": [205732.81147230256, 205832.50867371075, 206010.7213446728]},
+        "y": {"dims": ("ref",), "attrs": {"units": "arcsec"},
+              "data": [85748.89015925185, 85802.09354969644, 85961.12201291585]},
+        "weight": {"dims": ("ref",), "attrs": {"units": "mag"}, "data": [11.5, 14.0, 15.25]},
+        "flux": {"dims": ("ref", "wavelength"), "attrs": {"units": "ph / (cm2 nm s)"},
+                 "data": [[0.0375, 0.04125, 0.04, 0.03625], [0.0115, 0.01025, 0.00975, 0.00985],
+                          [0.00192, 0.00179, 0.00167, 0.0015]]},
+    },
+}
+
+
+def add_scene(det, m):
+    import xarray as xr
+
+    d = json.loads(json.dumps(SCENE))
+    scale = fx(m.get("flux_scale", 1.0))
+    d["data_vars"]["flux"]["data"] = [[v * scale for v in row] for row in d["data_vars"]["flux"]["data"]]
+    det.scene.add_source(xr.Dataset.from_dict(d))
 
 
 def _unit_rate(det, name, kw):
@@ -166,6 +211,25 @@ def build_args(det_spec, m, tag):
             cht = make_det(det_spec).characteristics
             aux["system_gain"] = float(cht.system_gain).hex()
             aux["adc_bits"] = int(cht.adc_bit_resolution)
+    elif k == "usaf_illumination":
+        fname = png_file(m, tag)
+        kw = {}
+        pkw, paux = placed(dict(m, data_shape=m["data_shape"]), shape, tag, fname)
+        kw.update(pkw)
+        aux.update(paux)
+        if "multiplier" in m:
+            kw["multiplier"] = fx(m["multiplier"])
+        if "time_scale" in m:
+            kw["time_scale"] = fx(m["time_scale"])
+        if m.get("convert"):
+            kw["convert_to_photons"] = True
+            kw["bit_resolution"] = int(m["bit_resolution"])
+            cht = make_det(det_spec).characteristics
+            aux["system_gain"] = float(cht.system_gain).hex()
+            aux["adc_bits"] = int(cht.adc_bit_resolution)
+    elif k == "scene_collection":
+        kw = dict(aperture=fx(m["aperture"]), filter_band=(336, 342), resolution=2, pixel_scale=fx(m["pixel_scale"]),
+                  integrate_wavelength=bool(m.get("integrate", True)))
     elif k == "stripe_pattern":
         kw = dict(level=fx(m["level"]), period=int(m["period"]), startwith=int(m.get("startwith", 0)),
                   angle=int(m.get("angle", 0)))
@@ -218,6 +282,17 @@ def _func(name):
 def _state(det):
     ph = det.photon._array
     return dict(photon=None if ph is None else hx(ph), charge=hx(det.charge.array), pixel=hx(det.pixel.array))
+
+
+def _nonzero_only(states, bucket):
+    """Keep only the elements of `bucket` that are non-zero for at least one step (large sparse arrays)."""
+    arrs = [np.array([fx(v) for v in st[bucket]]) for st in states if st.get(bucket) is not None]
+    if len(arrs) != len(states) or len({a.size for a in arrs}) != 1:
+        return
+    keep = np.flatnonzero(np.any(np.stack(arrs) != 0.0, axis=0))
+    for st in states:
+        st[bucket] = [st[bucket][i] for i in keep]
+        st["kept"] = int(keep.size)
 
 
 def det_vars(det):
@@ -273,6 +348,8 @@ def handle_call(p):
             det.readout_properties.time = fx(p.get("time", 7.0))
             det.readout_properties.time_step = step
             det.readout_properties.pipeline_count = 3
+            if m["m"] == "scene_collection":
+                add_scene(det, m)
             if mode == "prefilled":
                 if pre.get("photon") is not None:
                     det.photon.array = np.array([fx(v) for v in pre["photon"]], dtype=float).reshape(shape)
@@ -286,6 +363,8 @@ def handle_call(p):
             except Exception as ex:  # noqa: BLE001
                 rec[mode] = {"raise": type(ex).__name__, "msg": str(ex)[:200]}
         out["steps"].append(rec)
+    if m["m"] == "scene_collection" and all("empty" in r and "raise" not in r["empty"] for r in out["steps"]):
+        _nonzero_only([r["empty"] for r in out["steps"]], "photon")
     return out
 
 
@@ -304,8 +383,20 @@ def handle_exposure(p):
     try:
         ro = pyx.make_readout(times=[fx(t) for t in p["times"]], start_time=fx(p["start"]),
                               non_destructive=bool(p["nd"]))
-        res = pyx.run_exposure(det, pyx.make_pipeline(spec), ro)
-        px = np.asarray(res["bucket"]["pixel"].values, dtype=float)
+        if p.get("entry", "run_mode") == "exposure_mode":
+            # the deprecated public entry point has its own copy of the readout loop (also used by calibration)
+            import warnings
+
+            import pyxel
+            from pyxel.exposure import Exposure
+
+            with warnings.catch_warnings():
+                warnings.simplefilter("ignore")
+                ds = pyxel.exposure_mode(exposure=Exposure(readout=ro), detector=det, pipeline=pyx.make_pipeline(spec))
+            px = np.asarray(ds["pixel"].values, dtype=float)
+        else:
+            res = pyx.run_exposure(det, pyx.make_pipeline(spec), ro)
+            px = np.asarray(res["bucket"]["pixel"].values, dtype=float)
         if px.ndim != 3 or px.shape[1:] != (det_spec["rows"], det_spec["cols"]):
             return dict(aux=auxs, **{"raise": f"shape:{px.shape}"})
         return dict(aux=auxs, pixel=[hx(px[i]) for i in range(px.shape[0])])
